@@ -275,6 +275,7 @@ type layout struct {
 	pay     string   // none | data | dirents
 	resets  []string // slice fields reset before append (decode)
 	lists   []string
+	stops   []string // counted-list decode loops that stop at the first overrun
 	unknown []string
 }
 
@@ -718,7 +719,10 @@ func (p *pkgInfo) decStmt(typ, recv string, stmts []ast.Stmt, i int, prefix []st
 							if pa, ok := pathOf(reset.Lhs[0], recv); ok && len(pa) > 0 {
 								fp := recv + "." + strings.Join(pa, ".")
 								if norm(src(reset)) == fp+" = "+fp+"[:0]" &&
-									norm(src(loop.Init)) == "i := 0" && norm(src(loop.Cond)) == "i < int("+id.Name+")" && norm(src(loop.Post)) == "i++" {
+									norm(src(loop.Init)) == "i := 0" && (norm(src(loop.Cond)) == "i < int("+id.Name+")" || norm(src(loop.Cond)) == "i < int("+id.Name+") && !b.isOverrun()") && norm(src(loop.Post)) == "i++" {
+									if strings.HasSuffix(norm(src(loop.Cond)), "!b.isOverrun()") {
+										l.stops = append(l.stops, join(prefix, pa))
+									}
 									ft := p.fieldType(typ, pa)
 									et := strings.TrimPrefix(ft, "[]")
 									body := norm(src(loop.Body))
@@ -858,7 +862,7 @@ func genLayouts(p *pkgInfo, out string) {
 	var sb strings.Builder
 	sb.WriteString("-- GENERATED by /verif/extract from /repo/p9 (messages.go, p9.go, buffer.go). Do not edit.\n")
 	sb.WriteString("import P9Model.Wire.Msg\nnamespace P9.Gen\nopen P9\n\n")
-	sb.WriteString("structure GenMsg where\n  goName : String\n  typ : Nat\n  enc : List FieldDesc\n  dec : List FieldDesc\n  payEnc : PayKind\n  payDec : PayKind\n  isPayloader : Bool\n  fixedSize : Nat\n  resets : List String\n  lists : List String\n  unknown : List String\nderiving Repr, DecidableEq\n\n")
+	sb.WriteString("structure GenMsg where\n  goName : String\n  typ : Nat\n  enc : List FieldDesc\n  dec : List FieldDesc\n  payEnc : PayKind\n  payDec : PayKind\n  isPayloader : Bool\n  fixedSize : Nat\n  resets : List String\n  lists : List String\n  stops : List String\n  unknown : List String\nderiving Repr, DecidableEq\n\n")
 	var names []string
 	for _, r := range regs {
 		var le, ld layout
@@ -896,8 +900,8 @@ func genLayouts(p *pkgInfo, out string) {
 		unk := append(append([]string{}, le.unknown...), ld.unknown...)
 		def := "m_" + r.goType
 		names = append(names, def)
-		fmt.Fprintf(&sb, "def %s : GenMsg :=\n  { goName := %s, typ := %s,\n    enc := %s,\n    dec := %s,\n    payEnc := .%s, payDec := .%s, isPayloader := %s, fixedSize := %s,\n    resets := %s, lists := %s,\n    unknown := %s }\n\n",
-			def, leanStr(r.goType), constOf(typName), leanFields(le.fields), leanFields(ld.fields), pe, pd, isPay, fixed, leanStrs(ld.resets), leanStrs(ld.lists), leanStrs(unk))
+		fmt.Fprintf(&sb, "def %s : GenMsg :=\n  { goName := %s, typ := %s,\n    enc := %s,\n    dec := %s,\n    payEnc := .%s, payDec := .%s, isPayloader := %s, fixedSize := %s,\n    resets := %s, lists := %s, stops := %s,\n    unknown := %s }\n\n",
+			def, leanStr(r.goType), constOf(typName), leanFields(le.fields), leanFields(ld.fields), pe, pd, isPay, fixed, leanStrs(ld.resets), leanStrs(ld.lists), leanStrs(ld.stops), leanStrs(unk))
 	}
 	fmt.Fprintf(&sb, "def messages : List GenMsg := [%s]\n\n", strings.Join(names, ", "))
 	fmt.Fprintf(&sb, "def registryUnknown : List String := %s\n\n", leanStrs(regUnknown))
